@@ -368,16 +368,18 @@ def tits_solver(M, L):
     for ell in range(L):
         seen_words, classes = set(), []
         for cls in levels[-1]:
-            for u in cls:
-                for k in range(n):
-                    w = u + (k,)
-                    if w in seen_words:
-                        continue
-                    c = braid_class(w, M)
-                    if any(has_square(v) for v in c):
-                        continue          # not reduced (Tits)
-                    seen_words |= c
-                    classes.append(frozenset(c))
+            # all words of a class are the reduced expressions of ONE element g: g s_k is reduced or not independently of
+            # the expression chosen, and the class of u.k contains u'.k for every u' in the class (Matsumoto/Tits)
+            u = min(cls)
+            for k in range(n):
+                w = u + (k,)
+                if w in seen_words:
+                    continue
+                c = braid_class(w, M)
+                if any(has_square(v) for v in c):
+                    continue          # not reduced (Tits)
+                seen_words |= c
+                classes.append(frozenset(c))
         levels.append(classes)
     return levels
 
@@ -398,9 +400,17 @@ def gen_lang(rng, n):
     tier = _tier()
     if tier != "thorough":
         n = min(n, 600)      # the runner's escalated search asks for 10x; the exhaustive part is already in the first 358
-    for M in matrices(rng, n, exhaustive3=True):
-        style = rng.choice(["alpha", "alphanum"])
-        yield {"M": M, "style": style, "L": oracle_L(len(M), tier)}
+    nexh = len(R2) + len(R3_LABELLED) + len(SPECIAL4)
+    ms = matrices(rng, n, exhaustive3=True)
+    # a few rank-3 cases through the diagram route as well (the exhaustive block keeps the matrix route, so that every
+    # labelling is really visited)
+    ms += [rng.choice(R3_LABELLED) for _ in range(25)]
+    for idx, M in enumerate(ms):
+        # both constructor routes: the solver works on the matrix / generator order the *input* prescribes
+        spec = X.rand_spec(rng, M, allow_multichar=False) if (idx >= nexh and rng.random() < 0.6) else \
+            {"route": "matrix", "M": M, "style": rng.choice(["alpha", "alphanum"])}
+        Mx, _ = X.expected_matrix_and_names(spec)
+        yield {"M": Mx, "spec": spec, "style": spec.get("style", "alpha"), "L": oracle_L(len(M), tier)}
 
 
 def accepted(aut, names, L, even=False):
@@ -429,8 +439,12 @@ def run_lang(inp):
     from geometry_tools import coxeter
     M, L = inp["M"], inp["L"]
     n = len(M)
-    G = coxeter.CoxeterGroup(matrix=np.array(M), generator_style=inp["style"])
-    names = list(G.ordered_gens)
+    if "spec" in inp:
+        G = X.build_group(inp["spec"])
+        names = X.expected_matrix_and_names(inp["spec"])[1]       # prescribed by the input, not read from the library
+    else:
+        G = coxeter.CoxeterGroup(matrix=np.array(M), generator_style=inp["style"])
+        names = list(G.ordered_gens)
     try:
         geo = build_automaton(G, False)
         lex = build_automaton(G, True)
@@ -460,7 +474,11 @@ def run_lang(inp):
     if done and (A_geo_e != ev_geo or A_lex_e != ev_lex):
         bad["even"] = {"geo_diff": sorted(A_geo_e ^ ev_geo)[:3], "lex_diff": sorted(A_lex_e ^ ev_lex)[:3]}
     # the library's own enumeration agrees with the direct traversal (single-character names only)
-    if inp["style"] == "alpha":
+    # documented defaults: automaton() is the shortlex automaton, not the even-length variant
+    dflt = G.automaton()
+    if accepted(dflt, names, min(L, 5)) != {w for w in A_lex if len(w) <= min(L, 5)}:
+        bad["defaults"] = "automaton() differs from automaton(shortlex=True, even_length=False)"
+    if all(len(x) == 1 for x in names):
         lib = set(lex.enumerate_words(L))
         mine = {"".join(names[k] for k in w) for w in A_lex}
         if lib != mine:
@@ -528,7 +546,7 @@ def judge_lang(inp, obs, lr):
     if obs["bad"]:
         if lr:
             obs["bad"]["geodesic"]["certificate"]["lean_checkCert"] = lr[0]
-        pref = ["geodesic", "shortlex", "even", "growth", "injective", "length", "enumerate_words", "api_image"]
+        pref = ["geodesic", "shortlex", "even", "growth", "injective", "length", "enumerate_words", "defaults", "api_image"]
         what = sorted(obs["bad"], key=lambda k: pref.index(k) if k in pref else 99)[0]
         return {"expected": {"geodesic": "accepted words = reduced words", "shortlex": "accepted = least reduced expression of each element",
                              "even": "even automaton = even-length accepted words", "growth": "counts = growth series",
